@@ -1,5 +1,5 @@
 #!/bin/bash
-# usage: seed_regress.sh [jobs] [all|seeds|equiv] -- re-evaluates every stored seeded change and
+# usage: seed_regress.sh [jobs] [all|seeds|equiv] [name-regex] -- re-evaluates every stored seeded change and
 # every stored behaviour-preserving refactoring against the current checks.
 # Each one is applied in its own scratch worktree of /repo HEAD under /tmp
 # (VERIF_REPO points the engine at it), so /repo itself is not touched and the
@@ -8,6 +8,7 @@
 export GOFLAGS=-mod=mod GOPROXY=off GOSUMDB=off GOTOOLCHAIN=local
 jobs=${1:-3}
 only=${2:-all}   # all | seeds | equiv
+filter=${3:-.}
 cd /verif
 one() {
   d=$1; name=$(basename $d); kind=$2
@@ -26,4 +27,4 @@ one() {
   fi
 }
 export -f one
-( [ $only != equiv ] && for d in /verif/seeded/C*/; do echo "$d seed"; done; [ $only != seeds ] && for d in /verif/seeded/equivalent/C*/; do echo "$d equiv"; done) | xargs -P $jobs -L 1 bash -c 'one $0 $1'
+( [ $only != equiv ] && for d in /verif/seeded/C*/; do echo "$d seed"; done; [ $only != seeds ] && for d in /verif/seeded/equivalent/C*/; do echo "$d equiv"; done) | grep -E "/($filter)/ " | xargs -P $jobs -L 1 bash -c 'one $0 $1'
